@@ -338,6 +338,17 @@ pub fn check_c11(input: &[u8], strip: usize, seen: &mut Seen) -> (Vec<Violation>
 
 fn exercise(patch: &TextPatch) {
     let files: [&[u8]; 3] = [b"", b"a\nb\nc\n", b"ctx\nold\nctx\nold\nnew\n"];
+    // the optional analysis the tool can be asked to run while applying (-A multiapply)
+    let mut analyses = AnalysisSet::new();
+    analyses.add_default::<libpatch::analysis::MultiApplyAnalysis>();
+    for fp in &patch.file_patches {
+        for f in &files {
+            for &dir in &[PatchDirection::Forward, PatchDirection::Revert] {
+                let mut mf = ModifiedFile::new(f, true, None);
+                let _ = fp.apply(&mut mf, dir, 2, &analyses, &fn_analysis_note_noop);
+            }
+        }
+    }
     for fp in &patch.file_patches {
         for f in &files {
             for &dir in &[PatchDirection::Forward, PatchDirection::Revert] {
